@@ -5,12 +5,13 @@ package gl
 
 import (
 	"fmt"
-	"math"
 	"regexp"
 	"strconv"
 	"strings"
 
 	lua "github.com/yuin/gopher-lua"
+
+	"verif/internal/canon"
 )
 
 // Outcome of running something on the implementation.
@@ -54,23 +55,8 @@ func (m *IDMap) ID(p any) int {
 	return id
 }
 
-// NumStr renders a float64 for traces: exact, NaNs merged, -0 distinguished.
-func NumStr(f float64) string {
-	switch {
-	case math.IsNaN(f):
-		return "nan"
-	case math.IsInf(f, 1):
-		return "inf"
-	case math.IsInf(f, -1):
-		return "-inf"
-	case f == 0 && math.Signbit(f):
-		return "-0"
-	}
-	if f == math.Trunc(f) && math.Abs(f) < 1e15 {
-		return strconv.FormatInt(int64(f), 10)
-	}
-	return strconv.FormatFloat(f, 'g', -1, 64)
-}
+// NumStr renders a float64 for traces (see canon.NumStr).
+func NumStr(f float64) string { return canon.NumStr(f) }
 
 // Canon renders an LValue for a trace.
 func Canon(v lua.LValue, m *IDMap) string {
